@@ -399,7 +399,7 @@ func (monC05) Final(h *History) []Violation { return nil }
 func CfgC05() PropCfg {
 	w := DefaultWeights()
 	w.PlaceBid, w.ModifyBid, w.UpdateAllowed, w.AddAllowed, w.Block = 40, 14, 12, 10, 16
-	w.PerturbPct = 6
+	w.PerturbPct = 10
 	return PropCfg{ID: "C05", Weights: w, MinOps: 12, MaxOps: 60, DrivePct: 90,
 		New: func() Monitor { return monC05{} },
 		NonTrivial: func(h *History) bool {
